@@ -1,6 +1,8 @@
 import FqModel.Serial.Msgpack
 import Proofs.C16Common
 import Proofs.C16Msgpack
+import FqModel.Serial.SourcePins
+import FqModel.Gen.SerialTables
 /-!
   C16 — serialization decoders recover exactly the value that was encoded (property theorems).
 -/
@@ -36,4 +38,62 @@ theorem msgpack_trailing (x : W) (h : valid x = true) (rest : Bytes) :
   simpa using msgpack_roundtrip x h []
 
 end msgpack
+
+/-! ## regenerated facts (FqModel/Gen/SerialTables.lean is rewritten from /repo on every run) -/
+section regenerated
+open FqModel.Serial.Pins
+open FqModel.Gen.SerialTables (msgpackRows)
+
+/-- the regenerated rows of msgpack.go's `formatEntries` literal are, row by row, the rows of the model:
+    same byte ranges, and the source text of every row's decode function has the meaning (`rowSem`) the
+    model's row has -/
+theorem msgpack_rows_regenerated :
+    msgpackRows.map (fun r => (r.1, r.2.1, rowSem r.2.2.2)) = Msgpack.rows.map (fun r => (r.1, r.2.1, some r.2.2)) := by
+  decide +kernel
+
+/-- every byte 0..255 lies in exactly one row of the regenerated table, and that row's meaning is the
+    model's dispatch for the byte -/
+theorem msgpack_table_partition :
+    ∀ b, b < 256 →
+      ((msgpackRows.map (fun r => (r.1, r.2.1, rowSem r.2.2.2))).filter
+          (fun r => decide (b ≥ r.1) && decide (b ≤ r.2.1))).length = 1 ∧
+      ((msgpackRows.map (fun r => (r.1, r.2.1, rowSem r.2.2.2))).find?
+          (fun r => decide (b ≥ r.1) && decide (b ≤ r.2.1))).map (fun r => r.2.2) = (Msgpack.kindOf b).map some := by
+  rw [msgpack_rows_regenerated]
+  decide +kernel
+
+/-- the type symbols select the branch of `_msgpack_torepr` that the model's fused reducer takes -/
+theorem msgpack_symbols_regenerated :
+    ∀ r ∈ msgpackRows, (rowSem r.2.2.2).map kindBranch = some (jqBranch r.2.2.1) := by
+  decide +kernel
+
+/-- the rest of the msgpack decoder's text (helper closures, lookup, dispatch, jq reducer) is the text the
+    model was transliterated from -/
+theorem msgpack_source_regenerated :
+    FqModel.Gen.SerialTables.msgpackHelpers = Pins.msgpackHelpers ∧
+    FqModel.Gen.SerialTables.msgpackDispatch = Pins.msgpackDispatch ∧
+    FqModel.Gen.SerialTables.msgpackLookup = Pins.msgpackLookup ∧
+    FqModel.Gen.SerialTables.msgpackJq = Pins.msgpackJq := by
+  decide +kernel
+
+/-- cbor.go's constants are the model's -/
+theorem cbor_constants_regenerated : FqModel.Gen.SerialTables.cborConsts = Pins.cborConsts := by
+  decide +kernel
+
+/-- cbor.go's major type table, the short-count/dispatch statements and the jq reducer are the text the
+    model was transliterated from (this is what notices a change of the array/map loops, e.g. a revert of
+    the indefinite-length fix fa784167) -/
+theorem cbor_source_regenerated :
+    FqModel.Gen.SerialTables.cborMajorTypes = Pins.cborMajorTypes ∧
+    FqModel.Gen.SerialTables.cborDispatch = Pins.cborDispatch ∧
+    FqModel.Gen.SerialTables.cborJq = Pins.cborJq := by
+  decide +kernel
+
+theorem bencode_source_regenerated :
+    FqModel.Gen.SerialTables.bencodeStrIntUntil = Pins.bencodeStrIntUntil ∧
+    FqModel.Gen.SerialTables.bencodeValue = Pins.bencodeValue ∧
+    FqModel.Gen.SerialTables.bencodeJq = Pins.bencodeJq := by
+  decide +kernel
+
+end regenerated
 end Props.C16
